@@ -381,8 +381,7 @@ def build(model):
     from func_adl import ObjectStream, register_func_adl_os_collection
 
     ns = {"Any": Any, "Generic": Generic, "Iterable": Iterable, "TypeVar": TypeVar, "dataclasses": dataclasses, "ObjectStream": ObjectStream}
-    src = ["T = TypeVar('T')", "U = TypeVar('U')",
-           "@dataclasses.dataclass\nclass Info:\n    x: int\n    w: float\n    trk: 'Trk'\n    trks: 'Iterable[Trk]'"]
+    src = ["T = TypeVar('T')", "U = TypeVar('U')"]
     for cls in ORDER:
         params, base = SKEL[cls]
         if base is None:
@@ -395,6 +394,7 @@ def build(model):
             a = ann(ret)
             body.append(f"    def {name}(self){' -> ' + repr(a) if a else ''}: ...")
         src.append("\n".join(body) if body else "    pass")
+    src.append("@dataclasses.dataclass\nclass Info:\n    x: int\n    w: float\n    trk: Trk\n    trks: Iterable[Trk]")
     src.append("class Coll(ObjectStream[T]):\n    def __init__(self, a, item_type=Any):\n        super().__init__(a, item_type)\n"
                "    def Top(self) -> T: ...\n    def N(self) -> int: ...\n    def Rest(self) -> Iterable[T]: ...")
     exec("\n".join(src), ns)
